@@ -285,7 +285,7 @@ def world_responder_answer(p, m1):
     return p.send('B', m1)
 
 
-def h_child_response(shape):
+def h_child_response(shape, spi_len=4):
     """initiator in NEW_CHILD_REQ_SENT receives a CREATE_CHILD_SA response with an arbitrary proposal"""
     from symx import core
     eng = core.engine()
@@ -305,7 +305,7 @@ def h_child_response(shape):
     offer = a.creating_child_sa.proposal
     res = p.send('B', req)
     real_res = m.Message.parse(bytes(res), crypto=a.peer_crypto)
-    resp_prop, _ = sym_proposal(eng, 'resp', shape, 1, b'\xaa\xbb\xcc\xdd', proto=offer.protocol_id)
+    resp_prop, _ = sym_proposal(eng, 'resp', shape, 1, b'\xaa\xbb\xcc\xdd' if spi_len == 4 else eng.sym_bytes('resp_spi', spi_len), proto=offer.protocol_id)
     enc = [m.PayloadSA([resp_prop]) if x.type == m.Payload.Type.SA else x for x in real_res.encrypted_payloads]
     msg = m.Message(spi_i=a.spi_i, spi_r=a.spi_r, major=2, minor=0, exchange_type=36, is_response=True, can_use_higher_version=False,
                     is_initiator=False, message_id=a.my_msg_id, payloads=[], encrypted_payloads=enc)
@@ -314,6 +314,9 @@ def h_child_response(shape):
     n_kids = len(a.child_sas)
     r = deliver_object(a, p.A, msg)
     installed = any(x['op'] == 'NEWSA' for x in p.A.kernel.log[n_sad:])
+    if spi_len != 4 and (installed or len(a.child_sas) > n_kids):
+        return {'class': ['child_response'], 'violation': f'a response proposal whose SPI has {spi_len} bytes was accepted: CHILD_SA tracked / kernel SA requested '
+                                                          f'(IKE_SA now {a.state.name})'}
     if installed or len(a.child_sas) > n_kids:
         eng.prove(core.sym_and(*[in_prop(t, offer) for t in resp_prop.transforms]),
                   'the initiator installed a CHILD_SA for a response proposal containing a transform it never offered')
@@ -564,6 +567,9 @@ def build_instances(tier):
         inst.append(Instance(f'child_response {sh}', h_child_response, (sh,), native=nat(h_child_response),
                              must_reach=[('refused', lambda o: o[:2] == ['child_response', 'refused'])] +
                                         ([('accepted', lambda o: o == ['child_response', 'accepted'])] if sh in ('esp', 'ah', 'esp_pfs', 'esp_two_integ') else [])))
+    for k in ((0, 2, 8) if tier == 'quick' else (0, 1, 2, 3, 5, 8, 16)):
+        inst.append(Instance(f'child_response esp spi_len={k}', h_child_response, ('esp', k), native=nat(h_child_response),
+                             must_reach=[('refused', lambda o: o[:2] == ['child_response', 'refused'])]))
     for sit in ('new', 'rekey'):
         for n_dh in (1, 2):
             inst.append(Instance(f'child_request {sit} offered_groups={n_dh}', h_child_request, (sit, n_dh), native=nat(h_child_request),
